@@ -753,18 +753,62 @@ def site_lit(F, site):
 
 COQ_PRELUDE = """Definition icase := (func * site * list string * list node * list string * list string * list string * bool)%type.
 Fixpoint idx (p : icase -> bool) (i : nat) (l : list icase) : list nat := match l with [] => [] | c :: t => (if p c then [i] else []) ++ idx p (S i) t end.
-Definition p_mism (c : icase) : bool := let '(f, s, inn, on, oo, onn, cn, cmp) := c in cmp && negb (inline_matches f s inn on oo onn).
-Definition p_okb (c : icase) : bool := let '(f, s, inn, on, oo, onn, cn, cmp) := c in inline_okb f s.
-Definition p_fresh (c : icase) : bool := let '(f, s, inn, on, oo, onn, cn, cmp) := c in inline_fresh f s cn.
-Definition p_nodes (c : icase) : bool := let '(f, s, inn, on, oo, onn, cn, cmp) := c in cmp && negb (nodes_eqb (inline_nodes f s) on).
-Definition p_outs (c : icase) : bool := let '(f, s, inn, on, oo, onn, cn, cmp) := c in cmp && negb (str_list_eqb (inline_outs f s) oo).
+Definition p_mism (c : icase) : bool := let '(f, s, inn, on, oo, onn, cn, cmp) := c in cmp && negb (inline_matches icf f s inn on oo onn).
+Definition p_okb (c : icase) : bool := let '(f, s, inn, on, oo, onn, cn, cmp) := c in inline_okb icf f s.
+Definition p_fresh (c : icase) : bool := let '(f, s, inn, on, oo, onn, cn, cmp) := c in inline_fresh icf f s cn.
+Definition p_nodes (c : icase) : bool := let '(f, s, inn, on, oo, onn, cn, cmp) := c in cmp && negb (nodes_eqb (inline_nodes icf f s) on).
+Definition p_outs (c : icase) : bool := let '(f, s, inn, on, oo, onn, cn, cmp) := c in cmp && negb (str_list_eqb (inline_outs icf f s) oo).
 Definition p_names (c : icase) : bool := let '(f, s, inn, on, oo, onn, cn, cmp) := c in cmp && negb (str_list_eqb (inline_node_names f s inn) onn).
 """
 
 
+def probe_icfg(ctx):
+    """Which variant of _inliner.instantiate is this: are the inputs of a cloned subgraph prefixed, is a formal
+    without actual mapped to None?  Observed on one hand-built graph; anything unexpected breaks the tie."""
+    import onnx_ir as ir
+    from onnxscript._internal import _inliner
+
+    a, lo = ir.Value(name="a"), ir.Value(name="lo")
+    bi, bc, bv = ir.Value(name="i"), ir.Value(name="cond_in"), ir.Value(name="acc_0")
+    inner = ir.node("Add", [bv, a], name="n_in")
+    inner.outputs[0].name = "acc_1"
+    cond = ir.node("Identity", [bc], name="n_c")
+    cond.outputs[0].name = "cond_out"
+    body = ir.Graph(inputs=[bi, bc, bv], outputs=[cond.outputs[0], inner.outputs[0]], nodes=[inner, cond], name="body",
+                    opset_imports={"": TR.OPSET})
+    clip = ir.node("Clip", [a, lo], name="n_clip")
+    clip.outputs[0].name = "c"
+    loop = ir.node("Loop", [None, None, clip.outputs[0]], attributes={"body": body}, name="n_loop")
+    loop.outputs[0].name = "r"
+    g = ir.Graph(inputs=[a, lo], outputs=[loop.outputs[0]], nodes=[clip, loop], name="probe", opset_imports={"": TR.OPSET})
+    x = ir.Value(name="x")
+    nodes, _outs = _inliner.instantiate(g, [x], {}, prefix="P/")
+    second = nodes[0].inputs[1]
+    sub_in = [v.name for v in nodes[1].attributes["body"].as_graph().inputs]
+    cfg = {}
+    if second is None:
+        cfg["pad_missing_actuals"] = True
+    elif second is lo or getattr(second, "name", None) == "lo":
+        cfg["pad_missing_actuals"] = False
+    else:
+        ctx.tie_broken("translator", "probe:inliner-missing-actual", f"unexpected second input {second!r} of the cloned node")
+        cfg["pad_missing_actuals"] = False
+    if sub_in == ["P/i", "P/cond_in", "P/acc_0"]:
+        cfg["rename_sub_inputs"] = True
+    elif sub_in == ["i", "cond_in", "acc_0"]:
+        cfg["rename_sub_inputs"] = False
+    else:
+        ctx.tie_broken("translator", "probe:inliner-subgraph-inputs", f"unexpected input names {sub_in} of the cloned Loop body")
+        cfg["rename_sub_inputs"] = False
+    return cfg
+
+
+ICFG = {"rename_sub_inputs": False, "pad_missing_actuals": False}
+
+
 def coq_body(entries):
     """entries: list of (Fn, site, observed protos)."""
-    lines = [COQ_PRELUDE]
+    lines = [f"Definition icf : icfg := ICfg {common.cbool(ICFG['rename_sub_inputs'])} {common.cbool(ICFG['pad_missing_actuals'])}.", COQ_PRELUDE]
     used = sorted({F.name for F, _s, _o in entries})
     for nm in used:
         lines.append(f"Definition fn_{nm} : func := {fn_by_name(nm).lit()}.")
@@ -786,6 +830,10 @@ def coq_body(entries):
 
 def run_inline(ctx):
     t0 = time.time()
+    ICFG.update(probe_icfg(ctx))
+    ctx.assume("model D: the variant of _inliner.instantiate (inputs of cloned subgraphs prefixed or not, missing actuals mapped to None "
+               "or passed through) is probed on the real code on every run; Inline.v is evaluated with the probed icfg")
+    ctx.cover(probed_icfg=dict(ICFG))
     fns = pool()
     for F in fns:
         ok, detail = F.check_params()
